@@ -35,7 +35,9 @@
      is no restriction: the fine machine (SyncFine.v) makes every      fine_access_exclusive, fine_flag_stable,
      read / write of the two `signaled` flags a move of its own        fine_granularity_adds_no_behaviours,
                                                                        fine_quiescent_is_coarse, fine_completes,
-                                                                       fine_all_ok, fine_monitor_race_under_foreign_unlock
+                                                                       fine_all_ok, fine_monitor_race_under_foreign_unlock,
+     the STATE clauses ("no waiter stays blocked ...", "set releases    fine_no_stuck (round 5)
+     ...") read on the completed fine state
 
    [L] = a theorem about libnstd's own logic (flag handling, loops, deadline arithmetic) running on the modelled
          primitives.
@@ -61,6 +63,22 @@
          fine_monitor_race_under_foreign_unlock (one set(), two waits return true).  So the [L] theorems about Monitor
          above, stated "for any scripts" at coarse granularity, are at fine granularity theorems about clients that never
          unlock a monitor they do not own (Monitor::wait without owning the monitor is a TFault in Sched.v already).
+         The STATE theorems (absence of stuck states) cannot be read on `base fw` of a fine state in which a thread stands in
+         front of an access: its pc is still at the lock / condition wait it has passed, so `enabled (base fw) t` is even
+         false for it (ex_fine_no_stuck_premise).  fine_no_stuck (round 5) states them of the COMPLETION c of the fine state
+         (the pending accesses performed; reached by at most 3 moves of the pending threads themselves: fine_completes):
+         all of signal_no_waiter_blocked_while_set, signal_set_releases_all_waiters, signal_set_broadcasts_under_mutex,
+         semaphore_no_waiter_blocked_while_positive, mutex_reentrant, trylock_enabled, monitor_set_releases_a_waiter and
+         monitor_woken_waiter_returns_true hold of c.  For monitor_set_releases_a_waiter the ghost `mark` had to be carried
+         across the simulation (SyncFineMark.v): every mark of c is a mark of the matching coarse state - not conversely,
+         the coarse machine marks at the return of set()'s lock, the fine machine at the later write, and a waiter may have
+         been woken in between; under foreign_unlock = false nobody can BLOCK on the monitor's condition between the two
+         points because the setter owns the monitor.
+         Thread::start (round 5): pthread_create and the creator's code after it are two moves (ThStartP / ThStartRet), the
+         child may run in between (ex_join_child_first_mid, ex_join_child_first_history).  Thread::func (written by the creator before pthread_create, read
+         by the child's routine) and Thread::thread are NOT in the fine machine: their accesses are ordered by pthread_create
+         / pthread_join themselves; that the library writes func before the create is checked by the tie only (a child
+         scheduled first crashes on the unwritten callee), not by a theorem.
 
    "stays blocked" is stated as absence of stuck states: whenever the bad configuration holds, a named
    thread has an enabled step that ends it (the schedulers of the model are arbitrary, so no fairness
@@ -84,7 +102,7 @@
    return code); ex_monitor_stolen_signal below runs that schedule. *)
 From Coq Require Import ZArith List Bool Arith.
 From Sync Require Import Sched SyncSpec SyncModel SyncArith SyncInv SyncTrace SyncSignal SyncTimed SyncMonitor SyncTheorems SyncUnrepaired.
-From Sync Require Import SyncFine SyncFineLocal SyncFineSim SyncFineInv SyncFineMain SyncFineCor SyncFineTrace.
+From Sync Require Import SyncFine SyncFineLocal SyncFineSim SyncFineInv SyncFineMain SyncFineCor SyncFineTrace SyncFineMark SyncFineLive.
 Import ListNotations.
 Local Open Scope Z_scope.
 
@@ -309,6 +327,30 @@ Theorem fine_all_ok : forall scripts results started s0 v0 fsched, 0 <= v0 ->
 Proof. exact fine_all_ok_l. Qed.
 Print Assumptions fine_all_ok.
 
+(* the STATE clauses of the property on the fine machine: c = the fine state with its pending accesses performed; every bad
+   configuration of c names an enabled thread of c (Signal, Semaphore, Mutex, Monitor) *)
+Theorem fine_no_stuck : forall scripts results started s0 v0 fsched, 0 <= v0 ->
+  let fw := freach scripts results started s0 v0 fsched in
+  foreign_unlock fw = false ->
+  exists c, complete_of fw c /\
+    (forall u, sigf c = true -> blocked_on SC (st (ps c) u) = true ->
+       exists v, pc (tc c v) = SigSetBcast /\ enabled c v = true) /\
+    (forall t, pc (tc c t) = SigSetBcast -> forall u, blocked_on SC (st (ps (step c (Run t))) u) = false) /\
+    (forall t, pc (tc c t) = SigSetBcast \/ pc (tc c t) = SigSetUnlock ->
+       m_owner (mtx (ps c) SM) = Some t /\ enabled c t = true) /\
+    (forall t, 0 < sem (ps c) XS -> (pc (tc c t) = SemWaitP \/ exists d, pc (tc c t) = SemWaitTP d) -> enabled c t = true) /\
+    (forall t, m_owner (mtx (ps c) XM) = Some t -> pc (tc c t) = MtxLockP -> enabled c t = true) /\
+    (forall t, pc (tc c t) = MtxTryP \/ pc (tc c t) = MonTryP -> enabled c t = true) /\
+    (forall u, monf c = true -> blocked_on MC (st (ps c) u) = true -> mark c u = true ->
+       exists v, ((pc (tc c v) = MonSetUnlock \/ pc (tc c v) = MonSetSignal) /\ enabled c v = true) \/
+                 (exists rc dl dl', st (ps c) v = TWoken MM rc dl /\ pc (tc c v) = MonWaitCond dl' /\
+                                    (is_free (mtx (ps c) MM) = true -> enabled c v = true))) /\
+    (forall v rc dl dl', st (ps c) v = TWoken MM rc dl -> pc (tc c v) = MonWaitCond dl' -> is_free (mtx (ps c) MM) = true ->
+       monf c = true ->
+       monf (step c (Run v)) = false /\ exists cl, trace (step c (Run v)) = EvRet v cl 1 :: trace c /\ is_mon_wait cl = true).
+Proof. exact fine_no_stuck_l. Qed.
+Print Assumptions fine_no_stuck.
+
 (* the hypothesis foreign_unlock = false is necessary for the Monitor half *)
 Theorem fine_monitor_race_under_foreign_unlock :
   let fw := freach race_scripts res100 (fun _ => true) false 0 race_sched in
@@ -515,6 +557,25 @@ Proof. vm_compute. reflexivity. Qed.
 Example ex_fine_all_ok :
   all_ok false 0 (trace (base (frun_all fine_two [Run 1%nat; Run 0%nat]))) = [true; true; true; true; true; true].
 Proof. vm_compute. reflexivity. Qed.
+(* fine_no_stuck: the waiter (thread 0) is blocked, the setter's lock has returned and its write is pending.  On `base fw` the
+   flag is down, nobody is marked and the setter is not even enabled (its pc is still at the lock of the non-recursive MM it
+   owns); in the completion c the flag is up, the waiter is blocked and marked - the premise of the Monitor clause - and the
+   setter stands at its enabled unlock *)
+Definition fine_set_mid := freach mon_sc res100 all_started false 0 (runs 0%nat 4%nat ++ runs 1%nat 2%nat).
+Example ex_fine_no_stuck_premise :
+  (fp fine_set_mid 1%nat, monf (base fine_set_mid), mark (base fine_set_mid) 0%nat, enabled (base fine_set_mid) 1%nat,
+   foreign_unlock fine_set_mid,
+   let c := cw (base fine_set_mid) 1%nat FMonWrite in
+   (monf c, blocked_on MC (st (ps c) 0%nat), mark c 0%nat, pc (tc c 1%nat), enabled c 1%nat))
+  = (FMonWrite, false, false, false, false, (true, true, true, MonSetUnlock, true)).
+Proof. vm_compute. reflexivity. Qed.
+Example ex_fine_no_stuck_complete : complete_of fine_set_mid (cw (base fine_set_mid) 1%nat FMonWrite).
+Proof.
+  exists None, (Some (1%nat, FMonWrite)). split; [|split]; [| |unfold comp; cbn [cwo]; reflexivity].
+  - intros t. destruct t as [|[|t]]; vm_compute; discriminate.
+  - split; [vm_compute; reflexivity|split; [reflexivity|]]. intros u Hu. destruct u as [|[|u]]; [|exfalso; apply Hu; reflexivity|]; vm_compute; discriminate.
+Qed.
+
 (* the race of fine_monitor_race_under_foreign_unlock at the moment both waiters stand in front of their read: two threads
    at a Monitor access, the second owns MM, the first does not any more *)
 Definition race_mid := freach race_scripts res100 all_started false 0 (firstn 19 race_sched).
